@@ -29,6 +29,7 @@ func init() {
 	vrt.Register("C06_node_evaluated_again", NodeEvaluatedAgain)
 	vrt.Register("C06_float_symbolic", FloatSymbolic)
 	vrt.Register("C06_regex_patterns", func() { RegexPatterns("~=") })
+	vrt.Register("C06_dot_numbers", DotNumbers)
 }
 
 var binops = []string{"+", "-", "*", "/", "<", "<=", ">", ">=", "==", "!=", "&&", "||", "~="}
@@ -835,5 +836,43 @@ func RegexPatterns(what string) {
 	}
 	vrt.Assert(err == nil, what+": a pattern that compiles renders")
 	vrt.Assert(got == want, what+": the value is that of Go's regexp match")
+	vrt.Cover("done")
+}
+
+// ---- float literals written .5 / 0.5 / 1.0 directly against operators,
+// brackets and the end of the tag, with and without blanks: the value is the
+// same, a blank is never needed
+func DotNumbers() {
+	type cs struct{ tight, loose, want string }
+	cases := []cs{
+		{".5+.5", ".5 + .5", "1"},
+		{".5*2.0", ".5 * 2.0", "1"},
+		{"1.0+.5*2.0", "1.0 + .5 * 2.0", "2"},
+		{"(.5)", "( .5 )", "0.5"},
+		{"[.5,.25][1]", "[ .5 , .25 ][1]", "0.25"},
+		{".5==.5", ".5 == .5", "true"},
+		{".5<.75", ".5 < .75", "true"},
+		{"2.0-.5", "2.0 - .5", "1.5"},
+		{"1.5/.5", "1.5 / .5", "3"},
+		{"{k:.5}[\"k\"]", "{k: .5 }[\"k\"]", "0.5"},
+	}
+	c := cases[vrt.Choice(len(cases))]
+	ctx := plush.NewContext()
+	var in string
+	switch vrt.Choice(4) {
+	case 0:
+		in = "<%= " + c.tight + " %>"
+	case 1:
+		in = "<%=" + c.tight + "%>"
+	case 2:
+		in = "<%= " + c.loose + " %>"
+	default:
+		in = "<% let z = " + c.tight + "%><%= z %>"
+	}
+	vrt.Note("input", in)
+	got, err := plush.Render(in, ctx)
+	vrt.Note("got", got)
+	vrt.Assert(err == nil, "a float literal with a leading dot renders next to any token: "+c.tight)
+	vrt.Assert(got == c.want, "the value of an expression does not depend on blanks around its numbers: "+c.tight)
 	vrt.Cover("done")
 }
